@@ -159,6 +159,14 @@ def analyse_number(sp, out, value, ulp, prec):
         if not (sp.dot and sp.decimals == 0 and dotpart is not None):
             probs.append(('no-digits', '%r shows no digits' % out))
             return probs
+    if sp.sci and expart and value != 0 and not overflow:
+        # the exponent is chosen so that the mantissa fills every position before the point (less the one
+        # kept for the sign): a field shows as many significant digits as it has positions
+        reserve = 0 if (sp.lead_plus or sp.trail or sp.dollar) else 1
+        nd = 0 if intdigits == b'0' else len(intdigits)      # a lone zero is the optional zero before the point
+        if nd != max(0, sp.before - reserve):
+            probs.append(('mantissa-does-not-fill-the-field', '%r: %d digits before the point, the field has %d positions%s' % (
+                out, nd, sp.before, ' (one kept for the sign)' if reserve else '')))
     shown = Fraction(int(intdigits + decs or b'0'), 10 ** len(decs))
     x = 0
     if expart:
